@@ -115,10 +115,23 @@ type TableSpec struct {
 	GType   string `json:"gtype"`
 	// GTypeCase: how the source spells the type name in gpkg_geometry_columns ("" = upper case as the standard lists them, "lower", "title":
 	// files from other writers are spelled like that and the tool reads the name without regard to case)
-	GTypeCase string    `json:"gtypecase,omitempty"`
-	SRS       int       `json:"srs"`
-	Cols      []ColSpec `json:"cols"`
-	Rows      []RowSpec `json:"rows"`
+	GTypeCase string `json:"gtypecase,omitempty"`
+	SRS       int    `json:"srs"`
+	// GTypeDecl: the source declares the column with this extension type name (CURVEPOLYGON, MULTISURFACE, ...: super types that may hold the
+	// linear geometries generated here); only for checks that do not compare the type name (the tool registers GEOMETRY for names it does not know)
+	GTypeDecl string `json:"gtypedecl,omitempty"`
+	// Reg: the name under which the table is registered in gpkg_contents / gpkg_geometry_columns when it differs (in case only) from the
+	// name in CREATE TABLE; SQLite table names are case-insensitive
+	Reg  string    `json:"reg,omitempty"`
+	Cols []ColSpec `json:"cols"`
+	Rows []RowSpec `json:"rows"`
+}
+
+func (t TableSpec) reg() string {
+	if t.Reg != "" {
+		return t.Reg
+	}
+	return t.Name
 }
 
 var rdSRS = gogpkg.SpatialReferenceSystem{Name: "Amersfoort / RD New", ID: 28992, Organization: "EPSG", OrganizationCoordsysID: 28992,
@@ -185,11 +198,68 @@ func (t TableSpec) createSQL() string {
 
 // writeSource creates a GeoPackage with the given tables through go-spatial's gpkg package and plain SQL.
 func writeSource(path string, tables []TableSpec) error {
+	closeEditor, err := writeSourceLate(path, tables, 0)
+	closeEditor()
+	return err
+}
+
+// writeSourceLate: as writeSource, but the last `late` rows of every table are committed afterwards through a second connection in
+// write-ahead-log mode with automatic checkpoints off, and that connection stays open until the returned function is called: the
+// file is then in the state of a GeoPackage that is open in an editor (QGIS keeps its GeoPackages in WAL mode) - the rows are part
+// of the source for every SQLite reader, but they live in the -wal file next to it.
+func writeSourceLate(path string, tables []TableSpec, late int) (closeEditor func(), err error) {
+	closeEditor = func() {}
 	h, err := gogpkg.Open(path)
 	if err != nil {
-		return err
+		return closeEditor, err
 	}
-	defer h.Close()
+	type pending struct {
+		q    string
+		args [][]any
+		t    TableSpec
+		ext  *geom.Extent
+	}
+	var todo []pending
+	err = func() error {
+		defer h.Close()
+		return writeSourceTables(h, tables, late, func(q string, args []any, t TableSpec, ext *geom.Extent) {
+			if len(todo) == 0 || todo[len(todo)-1].t.Name != t.Name {
+				todo = append(todo, pending{q: q, t: t})
+			}
+			todo[len(todo)-1].args = append(todo[len(todo)-1].args, args)
+			todo[len(todo)-1].ext = ext
+		})
+	}()
+	if err != nil || len(todo) == 0 {
+		return closeEditor, err
+	}
+	db, err := sql.Open("spatialite", "file:"+path+"?_journal_mode=WAL&_busy_timeout=10000") // (the verif-tagged stub driver: the source tables carry R-tree triggers that call ST_IsEmpty)
+	if err != nil {
+		return closeEditor, err
+	}
+	db.SetMaxOpenConns(1)
+	closeEditor = func() { _ = db.Close() }
+	if _, err := db.Exec(`PRAGMA wal_autocheckpoint=0`); err != nil {
+		return closeEditor, err
+	}
+	for _, p := range todo {
+		for _, args := range p.args {
+			if _, err := db.Exec(p.q, args...); err != nil {
+				return closeEditor, fmt.Errorf("editor connection: %s: %w", p.q, err)
+			}
+		}
+		if p.ext != nil {
+			if _, err := db.Exec(`UPDATE gpkg_contents SET min_x = ?, min_y = ?, max_x = ?, max_y = ? WHERE table_name = ?`, p.ext.MinX(), p.ext.MinY(), p.ext.MaxX(), p.ext.MaxY(), p.t.reg()); err != nil {
+				return closeEditor, err
+			}
+		}
+	}
+	return closeEditor, nil
+}
+
+// writeSourceTables writes the tables through h; the last `late` rows of each table are not written but handed to defer_ together
+// with the extent of the whole table.
+func writeSourceTables(h *gogpkg.Handle, tables []TableSpec, late int, defer_ func(q string, args []any, t TableSpec, ext *geom.Extent)) error {
 	for _, t := range tables {
 		if t.SRS == 28992 {
 			if err := h.UpdateSRS(rdSRS); err != nil {
@@ -199,16 +269,20 @@ func writeSource(path string, tables []TableSpec) error {
 		if _, err := h.Exec(t.createSQL()); err != nil {
 			return fmt.Errorf("%s: %w", t.createSQL(), err)
 		}
-		if err := h.AddGeometryTable(gogpkg.TableDescription{Name: t.Name, ShortName: t.Name, Description: t.Name, GeometryField: t.GeomCol, GeometryType: t.gtype(), SRS: int32(t.SRS), Z: gogpkg.Prohibited, M: gogpkg.Prohibited}); err != nil {
+		if err := h.AddGeometryTable(gogpkg.TableDescription{Name: t.reg(), ShortName: t.Name, Description: t.Name, GeometryField: t.GeomCol, GeometryType: t.gtype(), SRS: int32(t.SRS), Z: gogpkg.Prohibited, M: gogpkg.Prohibited}); err != nil {
 			return err
 		}
-		if t.GTypeCase != "" {
+		if t.GTypeDecl != "" {
+			if _, err := h.Exec(`UPDATE gpkg_geometry_columns SET geometry_type_name = ? WHERE table_name = ?`, t.GTypeDecl, t.reg()); err != nil {
+				return err
+			}
+		} else if t.GTypeCase != "" {
 			spelled := strings.ToLower(t.GType)
 			if t.GTypeCase == "title" {
 				spelled = strings.ToUpper(spelled[:1]) + spelled[1:]
 				spelled = strings.NewReplacer("point", "Point", "linestring", "LineString", "polygon", "Polygon", "collection", "Collection").Replace(spelled)
 			}
-			if _, err := h.Exec(`UPDATE gpkg_geometry_columns SET geometry_type_name = ? WHERE table_name = ?`, spelled, t.Name); err != nil {
+			if _, err := h.Exec(`UPDATE gpkg_geometry_columns SET geometry_type_name = ? WHERE table_name = ?`, spelled, t.reg()); err != nil {
 				return err
 			}
 		}
@@ -218,8 +292,9 @@ func writeSource(path string, tables []TableSpec) error {
 		}
 		names = append(names, t.GeomCol)
 		q := fmt.Sprintf(`INSERT INTO "%s"(%s) VALUES(%s)`, t.Name, strings.Join(names, ","), strings.TrimSuffix(strings.Repeat("?,", len(names)), ","))
-		var ext *geom.Extent
-		for _, r := range t.Rows {
+		var ext, extEarly *geom.Extent
+		var lateArgs [][]any
+		for ri, r := range t.Rows {
 			args := []any{r.PK}
 			for i, c := range t.Cols {
 				args = append(args, colValue(c, r.Vals[i]))
@@ -229,19 +304,32 @@ func writeSource(path string, tables []TableSpec) error {
 				return err
 			}
 			args = append(args, sb)
-			if _, err := h.Exec(q, args...); err != nil {
+			isLate := ri >= len(t.Rows)-late
+			if isLate {
+				lateArgs = append(lateArgs, args)
+			} else if _, err := h.Exec(q, args...); err != nil {
 				return fmt.Errorf("%s: %w", q, err)
 			}
 			if e, _ := geom.NewExtentFromGeometry(r.Geom.Build()); e != nil {
 				if ext == nil {
-					ext = e
+					ext = e.Clone()
 				} else {
 					ext.Add(e)
 				}
+				if !isLate {
+					if extEarly == nil {
+						extEarly = e.Clone()
+					} else {
+						extEarly.Add(e)
+					}
+				}
 			}
 		}
-		if err := h.UpdateGeometryExtent(t.Name, ext); err != nil {
+		if err := h.UpdateGeometryExtent(t.reg(), extEarly); err != nil {
 			return err
+		}
+		for _, args := range lateArgs {
+			defer_(q, args, t, ext)
 		}
 	}
 	return nil
@@ -288,7 +376,7 @@ func featureTables(db *sql.DB) ([]string, error) {
 }
 
 func readBack(db *sql.DB, t TableSpec) (rt readTable, err error) {
-	if err = db.QueryRow(`SELECT column_name, geometry_type_name, srs_id FROM gpkg_geometry_columns WHERE table_name = ?`, t.Name).Scan(&rt.GeomCol, &rt.GType, &rt.SRSID); err != nil {
+	if err = db.QueryRow(`SELECT column_name, geometry_type_name, srs_id FROM gpkg_geometry_columns WHERE table_name = ?`, t.reg()).Scan(&rt.GeomCol, &rt.GType, &rt.SRSID); err != nil {
 		return rt, fmt.Errorf("gpkg_geometry_columns: %w", err)
 	}
 	var srsName, org, def string
@@ -317,7 +405,7 @@ func readBack(db *sql.DB, t TableSpec) (rt readTable, err error) {
 		rt.TableInfo += fmt.Sprintf("%d:%s:%s:%d:%v:%d;", cid, name, ctype, notnull, dflt == nil, pk)
 	}
 	ti.Close()
-	err = db.QueryRow(`SELECT min_x, min_y, max_x, max_y FROM gpkg_contents WHERE table_name = ?`, t.Name).Scan(&rt.Extent[0], &rt.Extent[1], &rt.Extent[2], &rt.Extent[3])
+	err = db.QueryRow(`SELECT min_x, min_y, max_x, max_y FROM gpkg_contents WHERE table_name = ?`, t.reg()).Scan(&rt.Extent[0], &rt.Extent[1], &rt.Extent[2], &rt.Extent[3])
 	rt.Contents = err == nil
 	if err != nil {
 		return rt, fmt.Errorf("gpkg_contents: %w", err)
@@ -440,7 +528,7 @@ func compareTable(rt readTable, t TableSpec, want []expectedRow, src *readTable)
 			}
 		}
 	}
-	if rt.GeomCol != t.GeomCol || !strings.EqualFold(rt.GType, t.GType) || rt.SRSID != t.SRS { // (type names compare without regard to case)
+	if rt.GeomCol != t.GeomCol || (t.GTypeDecl == "" && !strings.EqualFold(rt.GType, t.GType)) || rt.SRSID != t.SRS { // (type names compare without regard to case)
 		return fmt.Sprintf("table %s: geometry column %s type %s srs %d, source has %s %s %d", t.Name, rt.GeomCol, rt.GType, rt.SRSID, t.GeomCol, t.GType, t.SRS)
 	}
 	if src != nil {
